@@ -284,12 +284,15 @@ def _analyse(inp):
         ok = (tuple(raw.shape) == (B, ns, A, L) and tuple(hyp.shape) == (B, A, L)
               and tuple(att.shape) == (B, A, L) and tuple(used.shape) == (B, ns, A, L)
               and bool(torch.equal(X, X0)))
+        finite = bool(torch.isfinite(raw).all() and torch.isfinite(hyp).all() and torch.isfinite(att).all())
+        why = 'shape or input mutated' if not ok else ('non-finite value returned' if not finite else None)
+        ok = ok and finite       # NaN / inf cannot satisfy any equation of the spec: reported as Err
         out = {'ok': bool(ok), 'warn': bool(w1 or w2 or w3),
                'mult': raw.double().reshape(B, ns, A * L).tolist() if ok else None,
                'hyp': hyp.double().reshape(B, A * L).tolist() if ok else None,
                'attr': att.double().reshape(B, A * L).tolist() if ok else None}
         if not ok:
-            out['why'] = 'shape or input mutated'
+            out['why'] = why
     except Exception as e:      # noqa: BLE001 - any exception is "the call raised"
         out = {'ok': False, 'warn': False, 'mult': None, 'hyp': None, 'attr': None, 'why': repr(e)[:300]}
         used = refs
